@@ -279,6 +279,161 @@ func c14Scenario(msize uint32, dotu bool, lengths []int, part string) Scenario {
 }
 
 // several files open at once, operations interleaved
+// c14HelperSequences: every sequence of `depth` calls over the File helpers (Read,
+// ReadAt, Readn, Write, WriteAt, Written, with counts below and above the iounit)
+// against a reference model of (file contents, file offset): each call returns what
+// the model says, only Read and Write move the offset, and the underlying file ends
+// up as the model's contents.
+func c14HelperSequences(msize uint32, dotu bool, depth int) Scenario {
+	u := int(msize) - 24
+	name := fmt.Sprintf("helper-sequences msize=%d(iounit %d) dotu=%v depth=%d", msize, u, dotu, depth)
+	return Scenario{Name: name, Run: func(rc *RunCtx) *Result {
+		res := &Result{Exhaustive: true, Bounds: map[string]any{"depth": depth}}
+		base, root := scratchDir("c14")
+		defer os.RemoveAll(base)
+		type op struct {
+			kind string
+			n    int
+			off  int
+		}
+		alpha := []op{{"Read", 3, 0}, {"Read", u + 3, 0}, {"ReadAt", 5, 2}, {"ReadAt", 4, 100}, {"Readn", u + 5, 1}, {"Write", 2, 0}, {"Write", u + 2, 0}, {"WriteAt", 3, 6}, {"Written", u + 4, 3}, {"Written", 2, 20}}
+		initial := pattern(2*u+3, 9)
+		seen := map[string]bool{}
+		fail := func(sig, msg string) {
+			if !seen[sig] {
+				seen[sig] = true
+				res.Findings = append(res.Findings, Finding{Sig: "C14/helper-sequence/" + sig, Msg: msg})
+			}
+		}
+		idx := make([]int, depth)
+		for {
+			if rc.Expired() {
+				res.Exhaustive = false
+				res.CapHit = "internal deadline"
+				break
+			}
+			os.RemoveAll(root)
+			os.MkdirAll(root, 0o755)
+			path := filepath.Join(root, "file")
+			os.WriteFile(path, initial, 0o644)
+			var seq []string
+			bad := withUfsClient(root, msize, dotu, func(c *go9p.Clnt, h *SrvH) string {
+				f, err := c.FOpen("file", go9p.ORDWR)
+				if err != nil {
+					return "FOpen: " + err.Error()
+				}
+				content := append([]byte{}, initial...)
+				offset := 0
+				readAt := func(n, off int) []byte { // one Tread: at most an iounit
+					if n > u {
+						n = u
+					}
+					if off >= len(content) {
+						return nil
+					}
+					e := off + n
+					if e > len(content) {
+						e = len(content)
+					}
+					return content[off:e]
+				}
+				writeAt := func(d []byte, off int) {
+					for len(content) < off+len(d) {
+						content = append(content, 0)
+					}
+					copy(content[off:], d)
+				}
+				for step, i := range idx {
+					o := alpha[i]
+					seq = append(seq, fmt.Sprintf("%s(%d@%d)", o.kind, o.n, o.off))
+					buf := make([]byte, o.n)
+					data := pattern(o.n, step*7+i)
+					switch o.kind {
+					case "Read":
+						want := readAt(o.n, offset)
+						n, err := f.Read(buf)
+						if n != len(want) || !bytes.Equal(buf[:n], want) || (len(want) == 0) != (err == io.EOF) || (err != nil && err != io.EOF) {
+							return fmt.Sprintf("File.Read(%d) at offset %d returned (%d, %v) %x, want %x", o.n, offset, n, err, buf[:n], want)
+						}
+						offset += len(want)
+					case "ReadAt":
+						want := readAt(o.n, o.off)
+						n, err := f.ReadAt(buf, int64(o.off))
+						if n != len(want) || !bytes.Equal(buf[:n], want) || (len(want) == 0) != (err == io.EOF) || (err != nil && err != io.EOF) {
+							return fmt.Sprintf("File.ReadAt(%d, %d) returned (%d, %v) %x, want %x", o.n, o.off, n, err, buf[:n], want)
+						}
+					case "Readn":
+						wn := len(content) - o.off
+						if wn < 0 {
+							wn = 0
+						}
+						if wn > o.n {
+							wn = o.n
+						}
+						n, err := f.Readn(buf, uint64(o.off))
+						if n != wn || (wn > 0 && !bytes.Equal(buf[:n], content[o.off:o.off+wn])) || (err != nil && err != io.EOF) {
+							return fmt.Sprintf("File.Readn(%d, %d) returned (%d, %v), want %d bytes", o.n, o.off, n, err, wn)
+						}
+					case "Write":
+						wn := o.n
+						if wn > u {
+							wn = u
+						}
+						n, err := f.Write(data)
+						if err != nil || n != wn {
+							return fmt.Sprintf("File.Write(%d) at offset %d returned (%d, %v), want %d", o.n, offset, n, err, wn)
+						}
+						writeAt(data[:wn], offset)
+						offset += wn
+					case "WriteAt":
+						wn := o.n
+						if wn > u {
+							wn = u
+						}
+						n, err := f.WriteAt(data, int64(o.off))
+						if err != nil || n != wn {
+							return fmt.Sprintf("File.WriteAt(%d, %d) returned (%d, %v), want %d", o.n, o.off, n, err, wn)
+						}
+						writeAt(data[:wn], o.off)
+					case "Written":
+						n, err := f.Written(data, uint64(o.off))
+						if err != nil || n != o.n {
+							return fmt.Sprintf("File.Written(%d, %d) returned (%d, %v)", o.n, o.off, n, err)
+						}
+						writeAt(data, o.off)
+					}
+					if got, _ := os.ReadFile(path); !bytes.Equal(got, content) {
+						return fmt.Sprintf("after %s the underlying file differs from the model at byte %d (lengths %d / %d)", seq[len(seq)-1], firstDiff(got, content), len(got), len(content))
+					}
+				}
+				return ""
+			})
+			res.Evals++
+			res.Nontrivial++
+			res.States++
+			res.Transitions += int64(depth)
+			if bad != "" {
+				fail(sigWords(bad), fmt.Sprintf("%s: sequence %v: %s", name, seq, bad))
+			}
+			// next sequence
+			k := depth - 1
+			for k >= 0 {
+				idx[k]++
+				if idx[k] < len(alpha) {
+					break
+				}
+				idx[k] = 0
+				k--
+			}
+			if k < 0 {
+				break
+			}
+		}
+		res.Samples = append(res.Samples, fmt.Sprintf("all %d-call sequences over %d helper calls (counts below and above the iounit), model = (contents, offset)", depth, len(alpha)))
+		return res
+	}}
+}
+
 func c14ManyFiles(msize uint32, dotu bool) Scenario {
 	return Scenario{Name: fmt.Sprintf("eight-files msize=%d dotu=%v", msize, dotu), Run: func(rc *RunCtx) *Result {
 		res := &Result{Exhaustive: true}
@@ -405,6 +560,11 @@ func c14Scenarios(tier string) []Scenario {
 			out = append(out, c14Scenario(ms, (i+int(ms))%2 == 0, ls, "read "+via), c14Scenario(ms, (i+int(ms))%2 == 1, ls, "write "+via))
 		}
 	}
+	hd := 3
+	if tier == "thorough" {
+		hd = 4
+	}
+	out = append(out, c14HelperSequences(32, false, hd), c14HelperSequences(32, true, hd))
 	out = append(out, c14ManyFiles(40, false), c14ManyFiles(152, true))
 	out = append(out, c14Held(40, false), c14Held(152, true), c14Held(4120, false))
 	return out
@@ -413,7 +573,7 @@ func c14Scenarios(tier string) []Scenario {
 func init() {
 	register(&Property{ID: "C14", Level: "exploration",
 		Technique: "bounded-exhaustive enumeration of (file length, offset, count) triples through the real client and the real Ufs on a scratch tree, compared with the file's bytes on disk",
-		Rule:      "msize {32,40,152} (thorough + 33, 4120, 65560) x dialect x file lengths 0..3u+2 (every length for iounit u=8; boundary lengths 0,1,u-1,u,u+1,2u-1,2u,2u+1,3u+1 otherwise) with position-dependent contents; for small u every offset 0..len+2 x every count 0..2u+1 for Clnt.Read, File.ReadAt, File.Readn, Clnt.Write, File.Written; sequential File.Read / File.Write with every buffer size; 8 files interleaved; the same through a symbolic link and a hard link to the file. non-trivial = calls compared",
+		Rule:      "msize {32,40,152} (thorough + 33, 4120, 65560) x dialect x file lengths 0..3u+2 (every length for iounit u=8; boundary lengths 0,1,u-1,u,u+1,2u-1,2u,2u+1,3u+1 otherwise) with position-dependent contents; for small u every offset 0..len+2 x every count 0..2u+1 for Clnt.Read, File.ReadAt, File.Readn, Clnt.Write, File.Written; sequential File.Read / File.Write with every buffer size; 8 files interleaved; every sequence of 3 (thorough 4) calls over Read/ReadAt/Readn/Write/WriteAt/Written against a model of contents and offset; the same through a symbolic link and a hard link to the file. non-trivial = calls compared",
 		Assumptions: []string{"the host file system and package os are the reference", "client and server on the default schedule (data paths are sequential per fid)"},
 		Scenarios:   c14Scenarios, QuickS: 110, ThoroughS: 1200})
 }
